@@ -116,6 +116,7 @@ class State(object):
         self.nc = NoteContainer()
         self.ref = R.RefSet()
         self.alts = {}
+        self.operands = []          # containers handed to add_notes / '+' earlier, with the notes they must still hold
 
 
 # ---------------------------------------------------------------------------------------
@@ -275,6 +276,9 @@ def apply_action(st, act):
             nc.add_notes(other)
         else:
             r = nc + other
+        # the operand is itself a container with a history ("created with these notes"): keep it, the
+        # invariant checks in every later state that it still holds exactly those notes
+        st.operands.append((other, list(oref.notes)))
     elif kind == "del":
         form = rot(ref, DEL_FORMS)
         hit = [n for n in ref.notes if n[0] == act[1]]
@@ -478,12 +482,16 @@ class HistorySpec(BfsSpec):
     def invariant(self, st):
         S = engine.S
         check_content(st.nc, st.ref, S)
+        for k, (other, onotes) in enumerate(st.operands):
+            if stored(other) != onotes:
+                S.problem("operand container #%d (added earlier with add_notes/'+') afterwards" % k, onotes, stored(other))
+            S.count("operand_containers_rechecked")
         S.outcome(tuple(stored(st.nc)))
 
     def canon(self, st):
         # whole instance state of the real container (every attribute of it and of its notes), so
         # that hidden state a changed library adds still separates states
-        return engine.deep_key(st.nc)
+        return engine.deep_key([st.nc] + [o for o, _ in st.operands])
 
 
 def run_history(case):
@@ -494,7 +502,8 @@ def run_history(case):
 # ---------------------------------------------------------------------------------------
 # forms: every equivalent spelling of one addition / removal on every base container
 # ---------------------------------------------------------------------------------------
-UNIVERSE = [("C", 4), ("D#", 4), ("G", 4), ("Eb", 5), ("Cb", 5), ("E", 3)]
+UNIVERSE = [("C", 4), ("D#", 4), ("G", 4), ("Eb", 5), ("Cb", 5), ("E", 3), ("C", 0)]
+FORM_OCTS = [0, 3, 4, 5]             # octave 0 is a legal octave (and a falsy number)
 
 
 def bases(maxsize):
@@ -546,7 +555,7 @@ def gen_forms(shard):
             yield [base, "bare", n, None, f]
         for f in range(DEL_FORMS):
             yield [base, "del", n, None, f]
-        for o in OCTS:
+        for o in FORM_OCTS:
             for f in range(PUT_FORMS_ALL):
                 yield [base, "put", n, o, f]
             yield [base, "del_oct", n, o, 0]
